@@ -551,6 +551,14 @@ func (w *worker) explore(res *workerResult) {
 	start := time.Now()
 	nSamples := 0
 
+	var hashOut *os.File
+	if p := os.Getenv("VERIF_HASHFILE"); p != "" {
+		if f, err := os.Create(p); err == nil {
+			hashOut = f
+			defer f.Close()
+		}
+	}
+
 	for i := from; i < to; i += stride {
 		if i&63 == 0 && time.Since(start) > maxWall {
 			res.TimedOut = true
@@ -564,6 +572,13 @@ func (w *worker) explore(res *workerResult) {
 		res.Runs++
 		res.Steps += rc.Steps
 		res.SimTimeNs += int64(rc.SimTime)
+		if hashOut != nil {
+			v := "-"
+			if rc.Violation != nil {
+				v = rc.Violation.Signature()
+			}
+			fmt.Fprintf(hashOut, "%d %016x %016x %d %s\n", i, rc.LogHash, rc.Sig, len(rc.Tape.Out), v)
+		}
 		if rc.HarnessErr != "" {
 			res.HarnessErr = fmt.Sprintf("seed=%d run=%d: %s", seed, i, rc.HarnessErr)
 
